@@ -10,8 +10,8 @@
    (3) frame_bytes is compared byte-for-byte with the wire on every run; what a *corrupted* frame parses to is not modelled
    beyond C15_xor_detects_single (the protocol level only needs: rejected). *)
 From Coq Require Import ZArith NArith Bool List.
-From GS Require Import model.Sender model.JobLines proofs.SenderProofs proofs.FrameProofs proofs.SenderLive proofs.SenderRacy
-  proofs.JobLinesProofs.
+From GS Require Import model.Sender model.JobLines model.ResendLine proofs.SenderProofs proofs.FrameProofs proofs.SenderLive proofs.SenderRacy
+  proofs.JobLinesProofs proofs.ResendProofs.
 Import ListNotations.
 Open Scope Z_scope.
 
@@ -96,6 +96,23 @@ Example C15_job_lines_nonvacuous :
   job_commands [[71;49;32;88;55;32;40;110;41;32;89;51;32;59;32;99]; [32;32;59;64;112]; [40;110;111;116;101;41]; [71;52;32;40]]%N =
     [[71;49;32;88;55;32;32;89;51]; [71;52;32;40]]%N.
 Proof. vm_compute. reflexivity. Qed.
+
+(* RESEND REQUESTS AS TEXT.  model/ResendLine.v: how _listen reads a resend request -- a line starting with "resend" (any case)
+   or "rs"; "N:", "N" and ":" become blanks; the first word int() accepts is the requested line.  For each of the formats
+   firmwares use ("Resend: k", "Resend:k", "rs k", "rs Nk ...", "Resend: N:k", "resend k", "RESEND: k"), EVERY line number k
+   and anything after it that starts with a separator: the request read is exactly k. *)
+Theorem C15_resend_formats : forall h0 s k tail, In (h0, s) resend_heads ->
+  match tail with [] => True | c :: _ => rsep c = true end ->
+  resend_request (h0 ++ s :: dec_Z k ++ tail) = Some k.
+Proof. exact resend_request_formats. Qed.
+Print Assumptions C15_resend_formats.
+
+(* "rs N2 Expected checksum 67" -> 2;  "ok T:210" is not a request;  "Resend: 5.0 6" -> 6 *)
+Example C15_resend_nonvacuous :
+  resend_request [114;115;32;78;50;32;69;120;112;101;99;116;101;100;32;99;104;101;99;107;115;117;109;32;54;55]%N = Some 2 /\
+  resend_request [111;107;32;84;58;50;49;48]%N = None /\
+  resend_request [82;101;115;101;110;100;58;32;53;46;48;32;54]%N = Some 6.
+Proof. vm_compute. repeat split. Qed.
 
 (* the XOR checksum detects the replacement of any single byte of the numbered prefix *)
 Theorem C15_xor_detects_single : forall pre b b' post, b <> b' -> checksum (pre ++ b :: post) <> checksum (pre ++ b' :: post).
